@@ -1460,6 +1460,12 @@ class Circuit(Unitary, StateVectorMap, Collection[Operation]):
             self.insert(cycle_index, op)
             return
 
+        if self.num_cycles == 0 or cycle_index >= self.num_cycles:
+            # `insert` appends when the cycle index is past the end, so
+            # the operations must be added front to back to stay in order.
+            self.append_circuit(circuit, location)
+            return
+
         for op in reversed(circuit):
             mapped_location = [location[q] for q in op.location]
             self.insert(
